@@ -378,5 +378,55 @@ func rulesC19(w *World, o *Out) {
 		}
 	}
 	o.Count("C19.R3 SetMempool sites", nApp, 1)
+	// the pool is unbounded and never silently drops: Insert treats MaxTx < 0 as "accept and discard", so
+	// the capacity must not be fed from configuration (the stock app.toml default for mempool.max-txs is -1)
+	nCfg := 0
+	for _, f := range w.ProdFuncs {
+		p := funcPkgPath(f)
+		if !strings.HasSuffix(p, "/app") && !strings.Contains(p, "/cmd/") {
+			continue
+		}
+		for _, st := range storesToField(f, "PriorityNonceMempoolConfig", "MaxTx") {
+			nCfg++
+			c, isC := canon(st.Val).(*ssa.Const)
+			ok := isC && c.Value != nil && c.Int64() >= 0
+			o.Check("C19.R3", w.FuncKey(TopFunc(f))+"|mempool capacity is a non-negative constant", ok, w.Pos(st.Pos()),
+				"with MaxTx < 0 Insert returns nil without storing the transaction: it is reported as admitted, CountTx stays 0 and Select never yields it; a capacity read from node configuration can be negative")
+		}
+	}
+	o.Note("C19.R3", "app|explicit MaxTx assignments", "-", "assignments found: "+itoa(nCfg)+" (none = default config, unbounded)")
+
+	// ---- iterator bound ----
+	if ip := w.MustFunc(o, "app/mempool", "PriorityNonceIterator", "iteratePriority"); ip != nil {
+		o.Analysed(w.FuncKey(ip))
+		sts := storesToField(ip, "PriorityNonceIterator", "nextPriority")
+		o.Count("C19.R2 assignments of the iterator's priority bound", len(sts), 2)
+		for i, st := range sts {
+			nm, _ := loadedField(st.Val)
+			if nm == "MinValue" {
+				okNil := false
+				for _, fa := range FactsAt(st) {
+					if fa.Kind == FNil {
+						if c, okc := canon(fa.V).(*ssa.Call); okc {
+							if cal, ok2 := CalleeOf(c.Common()); ok2 && cal.Name == "Next" {
+								okNil = true
+							}
+						}
+					}
+				}
+				o.Check("C19.R2", "iteratePriority|the bound falls back to MinValue only when no entry follows"+ordSuffix(i), okNil, w.Pos(st.Pos()),
+					"the priority bound of the sender being iterated must be the priority of the next index entry whenever one exists")
+				continue
+			}
+			only := true
+			for _, fa := range FactsAt(st) {
+				if fa.Kind != FNil && fa.Kind != FNonNil {
+					only = false
+				}
+			}
+			o.Check("C19.R2", "iteratePriority|the bound is the next entry's priority whoever owns it"+ordSuffix(i), nm == "priority" && only, w.Pos(st.Pos()),
+				"a sender's lower-priority next transaction must wait for any higher-priority entry that follows in the index, including an entry of the same sender (otherwise a sender with queued high-class transactions overtakes other senders with its low-class one)")
+		}
+	}
 	_ = types.Typ
 }
